@@ -85,6 +85,8 @@ type Builder struct {
 	noPtrToNamed      bool
 
 	GlobalOnly []string // setting lines given on the command line instead of the converter
+	// ForceZeroBits: update:ignoreZeroValueField categories every update / default method gets (1 basic, 2 struct, 4 nillable)
+	ForceZeroBits int
 
 	enumNeedErr bool
 	enumMethods []*model.Method
@@ -319,6 +321,11 @@ func (b *Builder) Pair(depth int) (*spec.T, *spec.T) {
 			switch c.name {
 			case "basic", "struct", "ustruct":
 				keep = append(keep, c)
+			case "exotic":
+				// interfaces and channels are comparable: fine under :struct zero guards
+				if b.comparableOnly && !b.noNillable && b.Conv.Settings.SkipCopy {
+					keep = append(keep, c)
+				}
 			case "ptr", "tptr":
 				if !b.noNillable {
 					keep = append(keep, c)
@@ -529,7 +536,11 @@ func (b *Builder) keyPair() (*spec.T, *spec.T) {
 
 func (b *Builder) exotic() (*spec.T, *spec.T) {
 	var t *spec.T
-	switch b.draw(5, "exotic") {
+	kind := b.draw(5, "exotic")
+	if b.comparableOnly && kind == 2 {
+		kind = 0 // funcs are not comparable
+	}
+	switch kind {
 	case 0:
 		t = spec.Iface("any")
 	case 1:
@@ -1294,7 +1305,7 @@ func (o Opts) SamePkgOutput() bool { return o.SamePkg }
 // zeroCategories draws update:ignoreZeroValueField categories and places them at
 // converter or method level.
 func (b *Builder) zeroCategories(m *model.Method) {
-	bits := b.draw(8, "zero-categories")
+	bits := b.draw(8, "zero-categories") | b.ForceZeroBits
 	zb, zs, zn := bits&1 != 0, bits&2 != 0, bits&4 != 0
 	if b.coin("zero-at-method-level") {
 		m.Settings.ZeroBasic, m.Settings.ZeroStruct, m.Settings.ZeroNillable = zb, zs, zn
